@@ -1,7 +1,7 @@
 (** Model of the scope value owner and its scope token (property C09).
 
-    Go sources transcribed (branch for branch, for scopes whose parties all have role OWNER and
-    require_party_rollup = false; that is the shape the harness generates):
+    Go sources transcribed (branch for branch; scopes with and without require_party_rollup, parties
+    with any role and the optional flag, scope specifications with their required roles):
       x/metadata/types/address.go    MetadataAddress.Denom / Coin (denom "nft/<scope bech32>", amount 1),
                                      AccMDLinks.ValidateForScopes / GetAccAddrs / GetMDAddrsForAccAddr
       x/metadata/types/msgs.go       ValidateBasic of the four messages (at least one signer, one scope id)
@@ -11,8 +11,14 @@
                                      SetScopeValueOwners, ValidateWriteScope, ValidateDeleteScope,
                                      ValidateUpdateValueOwners
       x/metadata/keeper/signers.go   ValidateScopeValueOwnersSigners, validateAllRequiredSigned,
-                                     findAuthzGrantee, isWasmAccount (as a flag), validateProvenanceRole,
-                                     validateSmartContractSigners
+                                     validateAllRequiredPartiesSigned (associateSigners,
+                                     associateAuthorizations, associateRequiredRoles,
+                                     associateAuthorizationsForRoles), validateRolesPresent,
+                                     findAuthzGrantee + getAuthzMessageTypeURLs, isWasmAccount (as a
+                                     flag), validateProvenanceRole, validateSmartContractSigners
+      x/metadata/types/signer_utils.go BuildPartyDetails (for unique parties), GetUsedSigners
+      x/metadata/keeper/scope.go     ValidateAddScopeDataAccess; msg_server.go AddScopeDataAccess (a
+                                     message that rewrites the stored scope through SetScope)
       x/metadata/keeper/msg_server.go WriteScope, DeleteScope, UpdateValueOwners, MigrateValueOwner
                                      (signers handed to the bank as transfer agents)
       x/marker/keeper/send_restrictions.go  SendRestrictionFn: the two account-level rules (withdraw
@@ -43,15 +49,25 @@ Definition sid := N.
 (** The metadata module account (mints, burns). *)
 Definition MODULE : addr := 0%N.
 
-Inductive kind := KWrite | KUpdate | KMigrate | KDelete.
+Inductive kind := KWrite | KUpdate | KMigrate | KDelete | KAddData.
 Definition kind_eqb (a b : kind) : bool :=
   match a, b with
-  | KWrite, KWrite | KUpdate, KUpdate | KMigrate, KMigrate | KDelete, KDelete => true
+  | KWrite, KWrite | KUpdate, KUpdate | KMigrate, KMigrate | KDelete, KDelete | KAddData, KAddData => true
   | _, _ => false
   end.
+(** getAuthzMessageTypeURLs: the grant types accepted for a message type, in lookup order. *)
+Definition kind_urls (k : kind) : list kind :=
+  match k with KAddData => [KAddData; KWrite] | _ => [k] end.
 
 Record marker := { mk_restricted : bool; mk_withdraw : list addr; mk_deposit : list addr }.
-Record scope := { sc_owners : list addr; sc_spec : N; sc_data : N }.
+(** A party: address, role (the PartyType enum value), optional flag. *)
+Definition party := (addr * N * bool)%type.
+Definition p_addr (p : party) : addr := fst (fst p).
+Definition p_role (p : party) : N := snd (fst p).
+Definition p_opt (p : party) : bool := snd p.
+Definition ROLE_PROVENANCE : N := 8%N.
+(** [sc_data]: the data-access list, as a set of interned addresses. *)
+Record scope := { sc_parties : list party; sc_spec : N; sc_data : list N; sc_rollup : bool }.
 
 (** Finite maps: association lists, newest binding first. *)
 Fixpoint get {V} (m : list (N * V)) (k : N) : option V :=
@@ -66,7 +82,7 @@ Definition is_nil {A} (l : list A) : bool := match l with [] => true | _ => fals
 
 Record state := {
   scopes : list (sid * option scope);        (* None = deleted *)
-  specs : list N;                            (* existing scope specifications *)
+  specs : list (N * list N);                 (* scope specifications: id |-> required roles *)
   toks : list (sid * list (addr * Z));       (* bank balances of scope denoms *)
   sups : list (sid * Z);                     (* bank supply of scope denoms *)
   markers : list (addr * marker);
@@ -168,8 +184,11 @@ Definition send_many (s : state) (from to : addr) (ds : list sid) (agents : list
   if restrict (markers s) from to agents then move_all s from to ds else None.
 
 (** ** Signer rules *)
+(** An authorization usable for message type [k] exists from [granter] to [grantee]. *)
+Definition authz (s : state) (granter grantee : addr) (k : kind) : bool :=
+  existsb (has_grant s granter grantee) (kind_urls k).
 Definition find_grantee (s : state) (granter : addr) (grantees : list addr) (k : kind) : option addr :=
-  find (fun g => has_grant s granter g k) grantees.
+  find (fun g => authz s granter g k) grantees.
 
 (** validateAllRequiredSigned: every required address signed or granted authz to a signer;
     returns the signers that were used. *)
@@ -182,6 +201,97 @@ Fixpoint all_required_signed (s : state) (req sg : list addr) (k : kind) : optio
       | _, _ => None
       end
   end.
+
+Definition opt_list {A} (o : option A) : list A := match o with Some a => [a] | None => [] end.
+
+Fixpoint dedup (l : list N) : list N :=
+  match l with [] => [] | a :: r => a :: filter (fun b => negb (N.eqb a b)) (dedup r) end.
+
+(** PartyDetails (every party of the scope is "available", hence usable by the spec). *)
+Record pd := { pd_addr : addr; pd_role : N; pd_opt : bool; pd_signer : option addr; pd_used : bool }.
+Definition pd_of (p : party) : pd :=
+  {| pd_addr := p_addr p; pd_role := p_role p; pd_opt := p_opt p; pd_signer := None; pd_used := false |}.
+Definition with_signer (d : pd) (g : addr) (used : bool) : pd :=
+  {| pd_addr := pd_addr d; pd_role := pd_role d; pd_opt := pd_opt d; pd_signer := Some g; pd_used := used |}.
+Definition mark_used (d : pd) : pd :=
+  {| pd_addr := pd_addr d; pd_role := pd_role d; pd_opt := pd_opt d; pd_signer := pd_signer d; pd_used := true |}.
+Definition has_signer (d : pd) : bool := match pd_signer d with Some _ => true | None => false end.
+Definition usable_as (r : N) (d : pd) : bool := negb (pd_used d) && N.eqb (pd_role d) r.
+
+(** Update the first element on which [f] answers. *)
+Fixpoint upd_first {A} (f : A -> option A) (l : list A) : option (list A) :=
+  match l with
+  | [] => None
+  | x :: r => match f x with
+              | Some y => Some (y :: r)
+              | None => option_map (cons x) (upd_first f r)
+              end
+  end.
+
+(** associateRequiredRoles: every required role takes the first unused signed party of that role. *)
+Definition assoc_roles (roles : list N) (pds : list pd) : list pd * list N :=
+  fold_left (fun (st : list pd * list N) r =>
+    let '(ps, miss) := st in
+    match upd_first (fun d => if usable_as r d && has_signer d then Some (mark_used d) else None) ps with
+    | Some ps' => (ps', miss)
+    | None => (ps, miss ++ [r])
+    end) roles (pds, []).
+
+(** associateAuthorizationsForRoles: a missing role takes the first unused unsigned party of that
+    role that granted authz to a signer. *)
+Definition assoc_authz_roles (s : state) (sg : list addr) (k : kind) (missing : list N) (pds : list pd)
+  : list pd * bool :=
+  fold_left (fun (st : list pd * bool) r =>
+    let '(ps, bad) := st in
+    match upd_first (fun d => if usable_as r d && negb (has_signer d)
+                              then match find_grantee s (pd_addr d) sg k with
+                                   | Some g => Some (with_signer d g true)
+                                   | None => None
+                                   end
+                              else None) ps with
+    | Some ps' => (ps', bad)
+    | None => (ps, true)
+    end) missing (pds, false).
+
+(** validateAllRequiredPartiesSigned with reqParties = availableParties = the scope's parties. *)
+Definition parties_signed (s : state) (parties : list party) (roles : list N) (sg : list addr) (k : kind)
+  : option (list pd) :=
+  let p1 := map (fun p => let d := pd_of p in
+                          if mem (pd_addr d) sg then with_signer d (pd_addr d) false else d) parties in
+  let p2 := map (fun d => if negb (pd_opt d) && negb (has_signer d)
+                          then match find_grantee s (pd_addr d) sg k with
+                               | Some g => with_signer d g false
+                               | None => d
+                               end
+                          else d) p1 in
+  if existsb (fun d => negb (pd_opt d) && negb (has_signer d)) p2 then None else
+  let '(p3, missing) := assoc_roles roles p2 in
+  let '(p4, bad) := assoc_authz_roles s sg k missing p3 in
+  if bad then None else Some p4.
+Definition used_signers (pds : list pd) : list addr := flat_map (fun d => opt_list (pd_signer d)) pds.
+
+(** validateRolesPresent: every required role has its own party (signed or not). *)
+Fixpoint remove_first_role (r : N) (l : list party) : option (list party) :=
+  match l with
+  | [] => None
+  | p :: rest => if N.eqb (p_role p) r then Some rest else option_map (cons p) (remove_first_role r rest)
+  end.
+Fixpoint roles_present (roles : list N) (l : list party) : bool :=
+  match roles with
+  | [] => true
+  | r :: rest => match remove_first_role r l with
+                 | Some l' => roles_present rest l'
+                 | None => false
+                 end
+  end.
+
+(** validateProvenanceRole: smart-contract parties, and only they, have the PROVENANCE role. *)
+Definition prov_ok (s : state) (parties : list party) : bool :=
+  forallb (fun p => Bool.eqb (is_wasm s (p_addr p)) (N.eqb (p_role p) ROLE_PROVENANCE)) parties.
+
+Definition party_addrs (l : list party) : list addr := dedup (map p_addr l).
+Definition required_addrs (l : list party) : list addr :=
+  dedup (map p_addr (filter (fun p => negb (p_opt p)) l)).
 
 (** If the first signer is a smart contract, all other signers are ignored. *)
 Definition effective_signers (s : state) (sg : list addr) : list addr :=
@@ -227,7 +337,7 @@ Fixpoint sc_check (s : state) (used : list addr) (k : kind) (can_wasm : bool) (s
         if negb can_wasm then false
         else if mem a used then sc_check s used k true rest
         else if is_nil rest then false
-        else forallb (fun granter => has_grant s granter a k) rest && sc_check s used k true rest
+        else forallb (fun granter => authz s granter a k) rest && sc_check s used k true rest
       else sc_check s used k false rest
   end.
 
@@ -254,17 +364,25 @@ Definition set_vo (s : state) (d : sid) (newvo : option addr) (agents : list add
       end
   end.
 
-Fixpoint has_dup (l : list N) : bool :=
-  match l with [] => false | a :: r => mem a r || has_dup r end.
-Definition owners_eqb (l1 l2 : list addr) : bool :=
-  Nat.eqb (length l1) (length l2) && forallb (fun a => mem a l2) l1.
+Definition same_party (p q : party) : bool := N.eqb (p_addr p) (p_addr q) && N.eqb (p_role p) (p_role q).
+Definition party_eqb (p q : party) : bool := same_party p q && Bool.eqb (p_opt p) (p_opt q).
+Fixpoint has_dup_party (l : list party) : bool :=
+  match l with [] => false | a :: r => existsb (same_party a) r || has_dup_party r end.
+(** Scope.ValidateBasic: at least one party, unique (address, role), optional only with rollup. *)
+Definition parties_basic (l : list party) (rollup : bool) : bool :=
+  negb (is_nil l) && negb (has_dup_party l) && (rollup || forallb (fun p => negb (p_opt p)) l).
+Definition parties_eqb (l1 l2 : list party) : bool :=
+  Nat.eqb (length l1) (length l2) && forallb (fun a => existsb (party_eqb a) l2) l1.
+Definition set_eqb (l1 l2 : list N) : bool :=
+  forallb (fun a => mem a l2) l1 && forallb (fun a => mem a l1) l2.
 Definition scope_eqb (a b : scope) : bool :=
-  N.eqb (sc_spec a) (sc_spec b) && owners_eqb (sc_owners a) (sc_owners b) && N.eqb (sc_data a) (sc_data b).
-Definition opt_list {A} (o : option A) : list A := match o with Some a => [a] | None => [] end.
-
+  N.eqb (sc_spec a) (sc_spec b) && parties_eqb (sc_parties a) (sc_parties b) &&
+  set_eqb (sc_data a) (sc_data b) && Bool.eqb (sc_rollup a) (sc_rollup b).
 (** ** Messages *)
 Inductive op :=
-| OWrite (sg : list addr) (d : sid) (owners : list addr) (spec data : N) (vo : option addr)
+| OWrite (sg : list addr) (d : sid) (parties : list party) (spec : N) (data : list N) (rollup : bool)
+         (vo : option addr)
+| OAddData (sg : list addr) (d : sid) (da : list N)      (* MsgAddScopeDataAccess *)
 | OUpdate (sg : list addr) (ds : list sid) (p : addr)
 | OMigrate (sg : list addr) (e p : addr)
 | ODelete (sg : list addr) (d : sid)
@@ -273,11 +391,21 @@ Inductive op :=
 | ORevoke (granter grantee : addr) (k : kind)
 | OSetMarker (a : addr) (m : marker).                    (* marker access administration, environment *)
 
+(** The party / owner signature check of an existing scope for message type [k]; returns the used
+    signers. *)
+Definition existing_signed (s : state) (e : scope) (roles : option (list N)) (sg : list addr) (k : kind)
+  : option (list addr) :=
+  if negb (sc_rollup e) then all_required_signed s (party_addrs (sc_parties e)) sg k
+  else match roles with
+       | None => all_required_signed s (required_addrs (sc_parties e)) sg k
+       | Some rs => option_map used_signers (parties_signed s (sc_parties e) rs sg k)
+       end.
+
 (** MsgWriteScope: ValidateBasic, ValidateWriteScope, SetScope. *)
-Definition step_write (s : state) sg d owners spec data (vo : option addr) : option state :=
-  if is_nil sg || is_nil owners || has_dup owners then None else
+Definition step_write (s : state) sg d parties spec data rollup (vo : option addr) : option state :=
+  if is_nil sg || negb (parties_basic parties rollup) then None else
   let existing := scope_of s d in
-  let prop := {| sc_owners := owners; sc_spec := spec; sc_data := data |} in
+  let prop := {| sc_parties := parties; sc_spec := spec; sc_data := data; sc_rollup := rollup |} in
   match (match existing, vo with Some _, Some _ => denom_owner (tok s d) | _, _ => Some None end) with
   | None => None
   | Some cur =>
@@ -285,17 +413,23 @@ Definition step_write (s : state) sg d owners spec data (vo : option addr) : opt
                      | Some e, Some c, Some p => negb (N.eqb c p) && scope_eqb e prop
                      | _, _, _ => false
                      end in
-      let parties :=
+      let pres :=
         if only_vo then Some [] else
-        if negb (mem spec (specs s)) then None else
-        if existsb (is_wasm s) owners then None else
-        match existing with
-        | Some e =>
-            if scope_eqb e prop && opt_addr_eqb cur vo then Some []
-            else all_required_signed s (sc_owners e) sg KWrite
-        | None => Some []
+        match get (specs s) spec with
+        | None => None
+        | Some roles =>
+            if negb (roles_present roles parties) then None else
+            if negb (prov_ok s parties) then None else
+            match existing with
+            | Some e =>
+                if negb (sc_rollup e) then
+                  (if scope_eqb e prop && opt_addr_eqb cur vo then Some []
+                   else all_required_signed s (party_addrs (sc_parties e)) sg KWrite)
+                else option_map used_signers (parties_signed s (sc_parties e) roles sg KWrite)
+            | None => Some []
+            end
         end in
-      match parties with
+      match pres with
       | None => None
       | Some pused =>
           match vo_signers s (opt_list cur) vo sg KWrite with
@@ -316,7 +450,7 @@ Definition step_delete (s : state) sg d : option state :=
   match scope_of s d with
   | None => None
   | Some e =>
-      match all_required_signed s (sc_owners e) sg KDelete with
+      match existing_signed s e (get (specs s) (sc_spec e)) sg KDelete with
       | None => None
       | Some pused =>
           match denom_owner (tok s d) with
@@ -335,6 +469,34 @@ Definition step_delete (s : state) sg d : option state :=
       end
   end.
 
+(** MsgAddScopeDataAccess: ValidateAddScopeDataAccess, then SetScope of the stored scope (whose
+    value owner field is empty, so the token is not touched). *)
+Definition step_adddata (s : state) sg d (da : list N) : option state :=
+  if is_nil sg || is_nil da then None else
+  match scope_of s d with
+  | None => None
+  | Some e =>
+      if existsb (fun x => mem x (sc_data e)) da then None else
+      let ok :=
+        if negb (sc_rollup e) then
+          match all_required_signed s (party_addrs (sc_parties e)) sg KAddData with
+          | Some u => sc_check s u KAddData true sg
+          | None => false
+          end
+        else match get (specs s) (sc_spec e) with
+             | None => false
+             | Some rs =>
+                 match parties_signed s (sc_parties e) rs sg KAddData with
+                 | Some pds => prov_ok s (sc_parties e) && sc_check s (used_signers pds) KAddData true sg
+                 | None => false
+                 end
+             end in
+      if ok then Some (with_scopes s (put (scopes s) d
+                   (Some {| sc_parties := sc_parties e; sc_spec := sc_spec e;
+                            sc_data := sc_data e ++ da; sc_rollup := sc_rollup e |})))
+      else None
+  end.
+
 (** GetScopeValueOwners + AccMDLinks.ValidateForScopes: every id once, every id has a holder. *)
 Fixpoint links_of (s : state) (seen : list sid) (ds : list sid) : option (list (addr * sid)) :=
   match ds with
@@ -346,9 +508,6 @@ Fixpoint links_of (s : state) (seen : list sid) (ds : list sid) : option (list (
       | _ => None
       end
   end.
-
-Fixpoint dedup (l : list N) : list N :=
-  match l with [] => [] | a :: r => a :: filter (fun b => negb (N.eqb a b)) (dedup r) end.
 
 (** SetScopeValueOwners: one SendCoins per distinct current holder, in order of first appearance. *)
 Fixpoint send_groups (s : state) (froms : list addr) (links : list (addr * sid)) (p : addr) (agents : list addr)
@@ -399,7 +558,8 @@ Definition grant_eqb (g : addr * addr * kind) a b k : bool :=
 
 Definition step_opt (s : state) (o : op) : option state :=
   match o with
-  | OWrite sg d owners spec data vo => step_write s sg d owners spec data vo
+  | OWrite sg d parties spec data rollup vo => step_write s sg d parties spec data rollup vo
+  | OAddData sg d da => step_adddata s sg d da
   | OUpdate sg ds p => step_update s sg ds p
   | OMigrate sg e p => step_migrate s sg e p
   | ODelete sg d => step_delete s sg d
@@ -420,13 +580,13 @@ Definition holder (s : state) (d : sid) : option addr := value_owner s d.
 (** Who stands behind a message: its Signers, or the sender of a bank send. *)
 Definition signers_of (o : op) : list addr :=
   match o with
-  | OWrite sg _ _ _ _ _ | OUpdate sg _ _ | OMigrate sg _ _ | ODelete sg _ => sg
+  | OWrite sg _ _ _ _ _ _ | OUpdate sg _ _ | OMigrate sg _ _ | ODelete sg _ | OAddData sg _ _ => sg
   | OSend from _ _ _ => [from]
   | _ => []
   end.
 Definition kind_of (o : op) : option kind :=
   match o with
-  | OWrite _ _ _ _ _ _ => Some KWrite
+  | OWrite _ _ _ _ _ _ _ => Some KWrite
   | OUpdate _ _ _ => Some KUpdate
   | OMigrate _ _ _ => Some KMigrate
   | ODelete _ _ => Some KDelete
@@ -453,5 +613,5 @@ Definition TokScope (s : state) : Prop :=
 Definition Inv (s : state) : Prop := BankInv s /\ TokScope s.
 
 (** A chain without scopes or scope tokens. *)
-Definition init (sp : list N) (mks : list (addr * marker)) (w bl : list addr) : state :=
+Definition init (sp : list (N * list N)) (mks : list (addr * marker)) (w bl : list addr) : state :=
   {| scopes := []; specs := sp; toks := []; sups := []; markers := mks; grants := []; wasm := w; blocked := bl |}.
